@@ -188,7 +188,7 @@ def conditions(tier):
 
 
 META = {
-    "bounds": {"quick": "lists <=3/<=3, tuples <=2/<=2, dicts <=2 old keys x ordered subsets of 3 keys (<=2), 8x4 dataclass call forms, attrs, namedtuple, 5 nested shapes, 6x5 type changes; all leaves symbolic ints",
+    "bounds": {"quick": "lists <=3/<=3, tuples <=2/<=2, dicts <=2 old keys x ordered subsets of 3 keys (<=2), 8x4 dataclass call forms, attrs, namedtuple, 9 sibling/sub-class pairs, 5 nested shapes, 6x5 type changes; all leaves symbolic ints; counterexamples are additionally replayed in a real pytest process (R1)",
                "thorough": "lists <=4/<=4, tuples <=3/<=3, dicts <=3 old keys x ordered subsets of 4 keys (<=3), more hand-written and nested shapes"},
     "outside": "containers longer than the bound, nesting deeper than 2, leaves other than ints (strings: C12), layouts other than the template's (C03), unmanaged parts (C10)",
     "assumptions": [
